@@ -574,8 +574,10 @@ META["C01"] = dict(level="model_checking", engine="simp", design_ref="DESIGN.md 
          "state and termination under fairness from every diagram of a bounded family; every pub simplifier of the real code is run on the "
          "same family, on random diagrams and gadget-rich graph-like diagrams in both backends under a watchdog and TLC decides "
          "Den(post)=Den(pre) on what the code produced.",
-    note="bounded (<=3 spiders exhaustive, <=6+gadgets random); exact phases k*pi/4 only (the floating-point clause for other phases is not covered); "
-         "termination on the real code is a 20 s watchdog")
+    note="bounded (<=3 spiders exhaustive, <=6+gadgets random); the exact verdicts are for phases k*pi/4; for other phases (n/d, d in 3..16) the "
+         "`generic` trace compares pre and post with a float reference evaluator in the harness (harness/src/refeval.rs, itself validated against "
+         "the specification's exact Den by TLC: RefEvalOK) at 1e-9 and TLC judges the logged boolean (SoundFloat); hook H3 logs every rule "
+         "application and Trace_Simp checks it is a step of spec/Simp.tla (L1); termination on the real code is a 20 s watchdog")
 META["C10"] = dict(level="model_checking", engine="rules+simp+tograph", design_ref="DESIGN.md section 3 C10", technique=TECH,
     text="Same machinery as C04/C01/C02 with boolean variables {0,1,2} on spiders: TLC checks DenV (denotation under every assignment) on the "
          "spec exhaustively and on every recorded rule application / simplifier run / measurement-circuit translation of the real code.",
@@ -584,7 +586,9 @@ META["C02"] = dict(level="model_checking", engine="tograph", design_ref="DESIGN.
     text="spec/ToGraph.tla transcribes Gate::add_to_graph case by case; TLC checks Den(ToGraph(c)) = CircSem(c) for every circuit over the full "
          "gate alphabet up to the length bound, per measurement outcome; the real to_graph_with_options (plain / simplify / post-selected CCZ, "
          "vec and hash) is validated circuit by circuit by TLC with the same two definitions, and compared name for name with the spec's graph (L1).",
-    note="<=2 qubits x <=3 gates exhaustive (3 qubits for CCZ/TOFF), <=4 qubits x <=10 gates random; exact phases only")
+    note="<=2 qubits x <=3 gates exhaustive (3 qubits for CCZ/TOFF), <=4 qubits x <=10 gates random; exact verdicts for phases k*pi/4; circuits with "
+         "other phases (rz/rx(n/d), d in 3..16) are judged in the `generic` trace against the float reference evaluator of the harness "
+         "(validated by TLC against Den / CircSem: RefEvalOK) at 1e-9 (TranslatedFloat)")
 META["C15"] = dict(level="model_checking", engine="circops", design_ref="DESIGN.md section 3 C15", technique=TECH,
     text="spec/Circuit.tla defines Adjoint/ToBasic/NumBasic/Concat and the gate-matrix semantics; TLC exhausts the algebraic laws over all small "
          "circuits (all argument orders of CCZ/TOFF, parity-phase arity 1..3) and validates every recorded result of the real "
@@ -595,7 +599,10 @@ META["C08"] = dict(level="model_checking", engine="tensor", design_ref="DESIGN.m
          "evaluator under TLC over an exhaustive family); every tensor the library computes for diagrams of the exhaustive family, random "
          "diagrams (<=7 spiders, <=4 boundaries, scattered numbering) and circuits over all gates its evaluator supports is compared entry "
          "by entry by TLC; == and scalar_eq are compared with the spec's TEq/ProjEq on all pairs of a tensor pool.",
-    note="to_tensorf is compared in the harness with the TLC-validated exact tensor at 1e-9 (floating point is outside TLA+)")
+    note="to_tensorf is compared in the harness with the TLC-validated exact tensor at 1e-9 (floating point is outside TLA+); diagrams and circuits with "
+         "phases outside the multiples of pi/4 are compared with the float reference evaluator of the harness, which TLC validates against Den / "
+         "CircSem on the exact fragment (RefEvalOK); a wide family (6-7 qubits) covers size-dependent code paths; every diagram is also evaluated with "
+         "scattered drawing coordinates")
 META["C11"] = dict(level="model_checking", engine="compose", design_ref="DESIGN.md section 3 C11", technique=TECH,
     text="spec/Compose.tla transcribes plug/append_graph/adjoint/plug_vertex/plug_inputs/plug_outputs/is_identity and states their meaning "
          "with tensor algebra over the reference denotation; TLC exhausts all pairs of a small family including Hadamard boundary wires and "
